@@ -105,6 +105,17 @@ def gen(seed, tier, which):
         fb = b''.join(frame(rnd.choice([0, 0, 1]), m) for m in msgs)
         wire = fb + frame(0x80, trailer_block(tr))
         bodies.append((fb, tr, wire))
+    # messages larger than the layer's 8 KiB buffer constant, cut below / at / above it (one 0x80 byte and a 0/1 byte early in the payload)
+    for size in ((9000, 20000) if tier == 'thorough' else (9000,)):
+        m = bytearray(rnd.randrange(2, 0x7f) for _ in range(size))
+        m[100], m[8300 % size] = 0x80, 0x01
+        tr = rand_trailers(rnd)
+        fb = frame(0, bytes(m)) + frame(0, b'xy')
+        wire = fb + frame(0x80, trailer_block(tr))
+        base = {'kind': 'cli_resp', 'version': 'HTTP/2.0', 'chunks_req': [[0, 0, 0, 0, 1, 9]], 'frames_bytes': list(fb), 'trailers': tr}
+        for c in (4000, 8191, 8192, 8193, 8197, size - 1, size + 5, size + 6):
+            out.append(dict(base, **{'class': 'large_message', 'complete': True, 'has_full_trailers': True, 'chunks_resp': [list(wire[:c]), list(wire[c:])]}))
+        out.append(dict(base, **{'class': 'large_message', 'complete': True, 'has_full_trailers': True, 'chunks_resp': [list(wire[i:i + 4096]) for i in range(0, len(wire), 4096)]}))
     for fb, tr, wire in bodies:
         base = {'kind': 'cli_resp', 'version': 'HTTP/2.0', 'chunks_req': [[0, 0, 0, 0, 1, 9]], 'frames_bytes': list(fb), 'trailers': tr}
         L = len(wire)
